@@ -28,6 +28,19 @@ CHECKS.update({
  'C16': dict(text='All methods of Parallelogram incl. the for_each closures executed from MIR around an oracle inner robot, for (driven,coupled) index pairs (8 in quick, all 30 in thorough) and a free scaling in [-2,2]: '
                   'one inner call of the same name, arguments unchanged except coupled -= scaling*driven, answers returned with coupled += scaling*driven, and the round trip through the forward adjustment is the identity.', design='6/C16'),
 })
+CHECKS.update({
+ 'C01': dict(text='Part A: inverse_intern and inverse_intern_5_dof executed WHOLE from MIR (forward and angle_to as oracles): every pushed solution carries a guard that implies the 1e-6/1e-6 cross-check '
+                  'of THAT vector against the requested pose (with C03 this is the independent-FK clause), is finite and in [-pi,pi]; no panic/unwinding obligation is reachable, also for non-finite pose components. '
+                  'Part B: the four public entry points executed from MIR over kernel summaries: every returned vector is a kernel answer (mod 2pi) or the singular candidate gated by compare_poses against the UNSHIFTED pose. '
+                  'Proofs use a sound linear abstraction (non-linear subterms -> fresh constants); anything not proved goes to a native search and only a natively reproduced failure is a VIOLATION.', design='6/C01'),
+ 'C04': dict(text='normalize_near leaf contract (LRA, all reals in range), sort_by_closeness comparator closures through the sort model (result ordered by the DOCUMENTED cost for no limits / weight 0 / 1 / symbolic), '
+                  'and the composition inside inverse_continuing(_5dof): every joint of every element normalised against the effective previous, whole list sorted against it, all kernel answers kept. One-step form only; dense trajectories not claimed.', design='6/C04'),
+ 'C06': dict(text='5-DOF kernel dominance (position cross-check, J1..J5 finite/normalised, J6 term-identical to the caller value); entry points return the caller J6; a dof=5 robot answers inverse (finite J6 = 0) and '
+                  'inverse_continuing through the 5-DOF kernel, normalised/sorted/filtered. Tool-axis equality and presence of the originating J1..J5 are judged only natively (replay battery).', design='6/C06'),
+ 'C08': dict(text='inverse/inverse_5dof (dof 6 and 5) executed from MIR over kernel summaries with symbolic limits: returned <=> compliant; continuation entry points: the result is the constraint filter applied once to the '
+                  'complete sorted list and the singular candidate is gated by constraints_compliant; constraints() of Tool/Base/Frame/Parallelogram returns the inner limits. Filter semantics itself is C07.', design='6/C08'),
+})
+CHECKS['C05']['text'] = CHECKS['C05']['text'].replace('is covered structurally by the continuation harness when built', 'is decided in the continuation harness (singular candidate: J4 and J6 move by the same amount; candidate gated by the unshifted-pose check)')
 PENDING = {}
 NA = {}
 def main():
